@@ -1,2 +1,381 @@
-def run(rep, an, tus):
-    pass
+"""R13d — bounded accesses and allocation discipline in the C kernels.
+
+(1) every subscript into a dimension of fixed extent (local arrays, inner dimensions
+    of pointer-to-array parameters) stays inside it, for reads and writes;
+(2) every write into a malloc'd temporary stays inside the malloc size;
+(3) every malloc is freed exactly once and no return lies between them;
+(4) for every Python call site, every write of the kernel into an array argument
+    stays inside the extent the Python side allocates for that argument, with the
+    kernel's size parameters traced through the glue's shape(k) reads back to the
+    Python shapes (decided where the allocation is visible; otherwise listed unknown).
+"""
+
+from __future__ import annotations
+
+import ast
+import re
+
+import sympy as sp
+
+from engine import cast, cidx, core, pyabs, symalg, xabi
+from engine.core import AnalysisError
+
+# Value ranges of integer index maps, established by the Python layer (assumptions,
+# printed in the evidence).  key: C parameter name of a kernel -> (exclusive upper bound
+# as an expression over the kernel's parameters, reason)
+ASSUME_RANGE = {
+    ("phpy_transform_dynmat_to_fc", "fc_index_map"): ("DIM:fc:0", "p2s_map (full fc: values < n_satom = fc.shape[0]) or arange(fc.shape[0]) (compact)"),
+    ("phpy_distribute_fc2", "fc_indices_of_atom_list"): ("DIM:fc2:0", "row indices of the force-constant array (arange(n) or p2s_map, see distribute_force_constants)"),
+    ("phpy_perm_trans_symmetrize_compact_fc", "p2s"): ("n_satom", "primitive->supercell atom indices"),
+    ("phpy_perm_trans_symmetrize_compact_fc", "s2pp"): ("n_patom", "supercell->primitive-index map"),
+    ("phpy_perm_trans_symmetrize_compact_fc", "perms"): ("n_satom", "atom permutations: values are supercell atom indices"),
+    ("phpy_set_index_permutation_symmetry_compact_fc", "p2s"): ("n_satom", "primitive->supercell atom indices"),
+    ("phpy_set_index_permutation_symmetry_compact_fc", "s2pp"): ("n_patom", "supercell->primitive-index map"),
+    ("phpy_set_index_permutation_symmetry_compact_fc", "perms"): ("n_satom", "atom permutations: values are supercell atom indices"),
+}
+
+
+def _nonneg(expr) -> bool:
+    """expr >= 0 for all non-negative integer values of its generators (sufficient test:
+    all polynomial coefficients non-negative)."""
+    e = sp.expand(expr)
+    if e.is_Number:
+        return e >= 0
+    gens = sorted(e.free_symbols | {f for f in e.atoms(sp.Function)}, key=str)
+    try:
+        P = sp.Poly(e, *gens)
+    except sp.PolynomialError:
+        return False
+    return all(c >= 0 for c in P.coeffs())
+
+
+def _bound(index, vars_, extra_bounds=None, lower=False):
+    """max (or min) of an affine index with non-negative coefficients; floor/Mod of loop
+    variables are first split into digits.  Returns sympy expr or None."""
+    bounds = {v: b for v, b in vars_.items()}
+    r = cidx.split_divmod(sp.expand(index), bounds)
+    if r is None:
+        return None
+    e, nb, _ = r
+    bounds.update(nb)
+    if extra_bounds:
+        bounds.update(extra_bounds)
+    if e.atoms(sp.floor) or e.atoms(sp.Mod):
+        return None
+    sub = {}
+    for d, (lo, hi) in bounds.items():
+        if e.has(d):
+            if lower:
+                sub[d] = lo if lo is not None else 0
+            else:
+                if hi is None:
+                    return None
+                sub[d] = hi - 1
+    try:
+        P = sp.Poly(e, *[d for d in bounds if e.has(d)]) if any(e.has(d) for d in bounds) else None
+    except sp.PolynomialError:
+        return None
+    if P is not None:
+        for c in P.coeffs():
+            if not _nonneg(c):
+                return None  # a negative coefficient: the corner is not hi-1
+    return sp.expand(e.subs(sub, simultaneous=True))
+
+
+def run(rep: core.Report, an, tus):
+    rep.rule("R13d.fixed", "subscripts into dimensions of fixed extent stay inside them (reads and writes; loop bounds substituted symbolically)", 90)
+    rep.rule("R13d.malloc", "writes into malloc'd temporaries stay inside the allocation; each malloc is freed exactly once with no return in between", 8)
+    rep.rule("R13d.extent", "kernel writes into an array argument stay inside the extent the Python call site allocates (sizes traced through the glue's shape(k) reads)", 12)
+
+    # (1) fixed dims ------------------------------------------------------
+    for tu in tus:
+        for fname in tu.functions:
+            s = an.summary(fname)
+            if s is None:
+                continue
+            seen = set()
+            for base, idx, dims, line, lv in s.accesses:
+                for k, (i, d) in enumerate(zip(idx, dims)):
+                    if d is None:
+                        continue
+                    key = (base, k, str(i))
+                    if key in seen:
+                        continue
+                    seen.add(key)
+                    hi = _bound(i, lv)
+                    lo = _bound(i, lv, lower=True)
+                    construct = f"{base}[..] axis {k} (extent {d}): subscript {_clean(i)}"
+                    if hi is None or not hi.is_Integer or lo is None or not lo.is_Integer:
+                        if fname == "phpy_set_smallest_vectors_sparse" and base == "smallest_vectors" and "count" in str(i):
+                            rep.assume("phpy_set_smallest_vectors_sparse: slot index 'count' < 27 relies on at most 27 tied images per pair (guarded after the write by 'count > 27'; needs a symprec of the order of the cell to violate)")
+                        else:
+                            rep.unknown(f"{tu.rel}::{fname}: {construct}: bound not a constant ({hi})")
+                        continue
+                    rep.instance("R13d.fixed", tu.rel, fname, construct, 0 <= lo and hi < d,
+                                 f"subscript ranges over [{lo}, {hi}] but the dimension has extent {d}: out-of-bounds access", line=line)
+
+    # (2)(3) malloc ----------------------------------------------------------
+    for tu in tus:
+        for fname, fn in tu.functions.items():
+            s = an.summary(fname)
+            if s is None or not s.allocs:
+                continue
+            rets = [tu.line(x) for x in cast.walk(fn) if x.get("kind") == "ReturnStmt"]
+            free_lines = {}
+            for x in cast.walk(fn):
+                if x.get("kind") == "CallExpr" and cast.callee_name(x) == "free":
+                    nm = cast.ref_name(cast.call_args(x)[0])
+                    free_lines.setdefault(nm, []).append(tu.line(x))
+            for nm, (size, qt, line) in s.allocs.items():
+                elem, dims, _ = cidx.type_dims(qt)
+                esz = sp.Symbol(f"sizeof<{elem}>", positive=True, integer=True)
+                inner = 1
+                for d in dims[1:]:
+                    inner *= d
+                # element count: size / sizeof(elem); size may be sizeof<T[3][3]> * n
+                count = None
+                sz = sp.expand(size)
+                for a in sz.atoms(sp.Symbol):
+                    if a.name.startswith("sizeof<"):
+                        t = a.name[7:-1]
+                        e2, d2, _ = cidx.type_dims(t if "[" in t or "*" in t else t)
+                        mult = 1
+                        for m in re.findall(r"\[(\d+)\]", t):
+                            mult *= int(m)
+                        base_t = re.sub(r"\s*(\[\d+\])+", "", t).strip()
+                        if base_t == elem:
+                            count = sp.expand(sz / a * mult)
+                if count is None:
+                    rep.instance("R13d.malloc", tu.rel, fname, f"{nm} = malloc({_clean(size)})", False, f"allocation size is not a multiple of sizeof({elem})", line=line)
+                    continue
+                fl = free_lines.get(nm, [])
+                between = [r for r in rets if fl and line < r < max(fl)]
+                cond_alloc = _guard_of(tu, fn, line)
+                cond_free = [_guard_of(tu, fn, l) for l in fl]
+                ok = len(fl) == 1 and not between and cond_free[0] == cond_alloc
+                rep.instance("R13d.malloc", tu.rel, fname, f"{nm} = malloc(…) is freed exactly once under the same guard ({cond_alloc or 'unconditional'})", ok,
+                             f"malloc at line {line}, free at {fl} (guards {cond_free}), returns in between at {between}: leak or double free on some path", line=line)
+                for w in s.writes:
+                    if w.base != nm:
+                        continue
+                    hi = _bound(w.index, w.vars)
+                    if hi is None or any(str(x).startswith("?") for x in hi.free_symbols) or hi.atoms(sp.Function):
+                        rep.unknown(f"{tu.rel}::{fname}: write {nm}[{_clean(w.index)}]: index is data dependent (counter or loaded value), not bounded statically")
+                        continue
+                    ok = _nonneg(count - (hi + 1))
+                    rep.instance("R13d.malloc", tu.rel, fname, f"write {nm}[{_clean(w.index)}] within malloc of {_clean(count)} elements", ok,
+                                 f"largest index {_clean(hi)} is not provably below the allocated element count {_clean(count)}", line=w.line)
+
+    # (4) extents at Python call sites -----------------------------------------
+    _extents(rep, an, tus)
+
+
+def _clean(e) -> str:
+    return core.norm(re.sub(r"@[A-Za-z_0-9]+:\d+", "", str(e)), 110)
+
+
+def _guard_of(tu, fn, line):
+    """Text of the innermost if-condition enclosing a source line (or None)."""
+    best = None
+    for x in cast.walk(fn):
+        if x.get("kind") == "IfStmt":
+            b = tu.line(x)
+            eo = cast.end_offset(x)
+            e = tu.line_of_offset(eo) if eo is not None else b
+            if b is not None and b < line <= e:
+                best = cast.text(cast.kids(x)[0])
+    return best
+
+
+# ---------------------------------------------------------------------------
+
+
+class _DimRewriter(ast.NodeTransformer):
+    """len(E) -> __dim(E, 0);  E.shape[k] -> __dim(E, k)"""
+
+    def visit_Call(self, node):
+        self.generic_visit(node)
+        if isinstance(node.func, ast.Name) and node.func.id == "len" and len(node.args) == 1:
+            return ast.Call(func=ast.Name(id="__dim", ctx=ast.Load()), args=[node.args[0], ast.Constant(0)], keywords=[])
+        return node
+
+    def visit_Subscript(self, node):
+        self.generic_visit(node)
+        if isinstance(node.value, ast.Attribute) and node.value.attr == "shape" and isinstance(node.slice, ast.Constant):
+            return ast.Call(func=ast.Name(id="__dim", ctx=ast.Load()), args=[node.value.value, node.slice], keywords=[])
+        return node
+
+
+def _py_expr(text: str, env: dict):
+    tree = ast.parse(text, mode="eval")
+    tree = ast.fix_missing_locations(_DimRewriter().visit(tree))
+    tr = symalg.OpenPyTranslator(where="shape")
+    return tr.expr(tree.body, dict(env))
+
+
+def _extents(rep, an, tus):
+    glue, exported = xabi.glue_table()
+    R = pyabs.Resolver()
+    decided = 0
+    for s in xabi.python_sites():
+        fname = exported.get(s.entry)
+        if not fname or fname.startswith("phpy_") or not s.call.args:
+            continue
+        g = glue[fname]
+        kernels = [(cn, args) for cn, args, _ in g.calls if cn.startswith("phpy_")]
+        if len(kernels) != 1 or len(s.call.args) != len(g.params):
+            continue
+        kname, kargs = kernels[0]
+        summ = an.summary(kname)
+        if summ is None:
+            continue
+        tu_k, fn_k = an.fns[kname]
+        kparams = [p.get("name") for p in cast.params(fn_k)]
+        fn = core.enclosing_function(s.call)
+        cls = None
+        cur = fn
+        while cur is not None:
+            cur = getattr(cur, "_parent", None)
+            if isinstance(cur, ast.ClassDef):
+                cls = cur
+                break
+        # local definitions of the calling function (for shape expressions that use locals)
+        tr = symalg.OpenPyTranslator(where=s.qualname)
+        try:
+            import copy
+
+            fn2 = ast.fix_missing_locations(_DimRewriter().visit(copy.deepcopy(fn))) if fn is not None else None
+            env = tr.summary(fn2) if fn2 is not None else {}
+        except Exception:
+            env = {}
+        argexpr = {}
+        shapes = {}
+        factor = {}
+        for a, p in zip(s.call.args, g.params):
+            if p.kind != "ndarray":
+                continue
+            try:
+                a0 = a
+                while True:  # dimension-preserving wrappers
+                    if isinstance(a0, ast.Call) and isinstance(a0.func, ast.Attribute) and a0.func.attr == "view":
+                        a0 = a0.func.value
+                    elif isinstance(a0, ast.Call) and core.src(a0.func) in ("np.array", "np.ascontiguousarray", "np.asarray") and a0.args:
+                        a0 = a0.args[0]
+                    else:
+                        break
+                argexpr[p.name] = _py_expr(core.src(a0), env)
+            except Exception:
+                argexpr[p.name] = sp.Symbol(f"<{p.name}>")
+            srcs = R.resolve(a, fn, cls)
+            shp = {x.shape for x in srcs}
+            if len(shp) == 1 and None not in shp and () not in shp:
+                shapes[p.name] = list(shp)[0]
+                factor[p.name] = 2 if all("<-complex128" in x.dtype or x.dtype == "complex128" for x in srcs) else 1
+
+        dim_sym = {}
+
+        def DIM(pn, k):
+            return dim_sym.setdefault((pn, k), sp.Symbol(f"dim[{pn},{k}]", integer=True, nonnegative=True))
+
+        def canon(e, depth=0):
+            """Express in DIM symbols: __dim(X, k) where X is one of the argument expressions."""
+            if depth > 4:
+                return e
+            for f in list(e.atoms(sp.Function)):
+                if type(f).__name__ == "__dim" and len(f.args) == 2 and f.args[1].is_Integer:
+                    for pn, ax in argexpr.items():
+                        if f.args[0] == ax:
+                            e = e.subs(f, DIM(pn, int(f.args[1])))
+            return e
+
+        def py_extent(pn):
+            shp = shapes.get(pn)
+            if shp is None:
+                return None, None
+            dims = []
+            for t in shp:
+                try:
+                    dims.append(canon(_py_expr(t, env)))
+                except Exception:
+                    return None, None
+            return dims, factor[pn]
+
+        # equations DIM(Q,k) == python shape element k of Q
+        known_dims = {}
+        for pn in shapes:
+            dims, fac = py_extent(pn)
+            if dims is None:
+                continue
+            for k, dk in enumerate(dims):
+                known_dims[DIM(pn, k)] = dk * (fac if k == len(dims) - 1 and fac == 2 and False else 1)
+
+        # kernel parameter -> python-side expression
+        sub = {}
+        ptr_of = {}
+        for kp, at in zip(kparams, kargs):
+            o = g.origin.get(at)
+            if o and o[0] == "shape":
+                sub[cidx.psym(kp)] = DIM(o[1], o[2])
+            elif o and o[0] == "data":
+                ptr_of[kp] = o[1]
+        for w in summ.writes:
+            if w.base_kind != "param" or w.base not in ptr_of:
+                continue
+            pn = ptr_of[w.base]
+            dims, fac = py_extent(pn)
+            if dims is None:
+                continue
+            have = sp.Integer(fac)
+            for dk in dims:
+                have = have * dk
+            extra = {}
+            idx = sp.expand(w.index)
+            skip = False
+            for f in list(idx.atoms(sp.Function)):
+                nm = type(f).__name__
+                if nm.startswith("load:"):
+                    key = (kname, nm[5:])
+                    if key not in ASSUME_RANGE:
+                        skip = True
+                        break
+                    ub_txt, why = ASSUME_RANGE[key]
+                    if ub_txt.startswith("DIM:"):
+                        _, b, k = ub_txt.split(":")
+                        ub = sp.Symbol(f"extent0<{b}>", integer=True, nonnegative=True)
+                        sub_ub = DIM(ptr_of.get(b, b), int(k))
+                    else:
+                        ub = cidx.psym(ub_txt)
+                        sub_ub = None
+                    d = sp.Symbol(f"val<{nm[5:]}>", integer=True, nonnegative=True)
+                    idx = idx.subs(f, d)
+                    extra[d] = (0, ub)
+                    if sub_ub is not None:
+                        sub[ub] = sub_ub
+                    rep.assume(f"{kname}: values of {nm[5:]} < {ub_txt} ({why})")
+                elif nm.startswith("call:"):
+                    skip = True
+            if skip or any(str(x).startswith("?") for x in idx.free_symbols):
+                rep.unknown(f"{s.file}::{s.qualname} phonoc.{s.entry}: write {w.base}[{_clean(w.index)}] depends on a loaded value without a range assumption")
+                continue
+            hi = _bound(idx, w.vars, extra)
+            if hi is None:
+                rep.unknown(f"{s.file}::{s.qualname} phonoc.{s.entry}: write {w.base}[{_clean(w.index)}]: bound not computable")
+                continue
+            need = sp.expand((hi + 1).subs(sub, simultaneous=True))
+            # express remaining DIM symbols through python shapes when known
+            need = sp.expand(need.subs(known_dims, simultaneous=True))
+            have = sp.expand(have.subs(known_dims, simultaneous=True))
+            ksyms = {cidx.psym(k) for k in kparams if k}
+            left = [x for x in need.free_symbols if x in ksyms]
+            if left:
+                rep.unknown(f"{s.file}::{s.qualname} phonoc.{s.entry}: size {left} of {kname} is not derived from a shape() read")
+                continue
+            ok = _nonneg(have - need)
+            if not ok and not (_nonneg(need - have) and sp.expand(need - have) != 0):
+                rep.unknown(f"{s.file}::{s.qualname} phonoc.{s.entry}: {pn}: needs {_clean(need)}, has {_clean(have)}: not comparable symbolically")
+                continue
+            decided += 1
+            rep.instance("R13d.extent", s.file, s.qualname, f"phonoc.{s.entry}: kernel writes {pn}[0 .. {_clean(need)}) ; Python allocates {_clean(have)} elements", ok,
+                         f"the kernel {kname} writes up to element {_clean(need)} of '{pn}' but the call site allocates {_clean(have)} (shape {shapes.get(pn)})", line=s.line,
+                         sample={"site": f"{s.qualname} -> {s.entry}", "array": pn, "needs": _clean(need), "has": _clean(have)})
+    rep.extra["extent_pairs_decided"] = decided
